@@ -1,6 +1,8 @@
 package main
 
 import (
+	"go/types"
+	"reflect"
 	"bufio"
 	"math"
 	"encoding/json"
@@ -372,3 +374,226 @@ func checkProperty(prop, tier, repo, verif string, seed int, t0 time.Time) int {
 func round3(f float64) float64 { return float64(int(f*1000)) / 1000 }
 
 var specialChecks = map[string]func(eng *Engine, prop, tier string, seed int, t0 time.Time, evPath string) int{}
+
+// C05: safety sweep. Every function marked safety-root is executed symbolically in safety mode:
+// only its object invariants ("assumes") are assumed, message data is arbitrary; every dereference,
+// index, type assertion, nil-map write and explicit panic that the root (or loop-free in-repo code it
+// calls) can reach is one obligation.
+func checkC05(eng *Engine, prop, tier string, seed int, t0 time.Time, evPath string) int {
+	verif := eng.verif
+	mode := &Mode{Safety: true}
+	var vcs []*VC
+	var roots []string
+	for _, fc := range eng.db.order {
+		if fc.Kind != "func" || !fc.SafetyRoot {
+			continue
+		}
+		vcs = append(vcs, eng.verifyFunction(fc, mode))
+		roots = append(roots, shortType(fc.Key))
+	}
+	if len(vcs) == 0 {
+		fmt.Printf("VIOLATION property=%s replay=%s no-failing-input-found\n", prop, writeReplay(verif, prop, "engine:roots", "no safety roots"))
+		return 1
+	}
+	// table lemma L5 (justifies the axiom cmdHasData ==> cmdHasFct): every pointer field of model.CmdType that carries
+	// an eebus "fct" tag names a non-empty function; extracted from go/types on every run
+	lem := newVC(eng, "tables")
+	{
+		var bad []string
+		n := 0
+		if p := eng.pkgTypes("model"); p != nil {
+			if o := p.Scope().Lookup("CmdType"); o != nil {
+				if st, ok := o.Type().Underlying().(*types.Struct); ok {
+					for i := 0; i < st.NumFields(); i++ {
+						tag := reflect.StructTag(st.Tag(i)).Get("eebus")
+						for _, kv := range strings.Split(tag, ",") {
+							if strings.HasPrefix(kv, "fct:") {
+								n++
+								if len(kv) == len("fct:") {
+									bad = append(bad, st.Field(i).Name())
+								}
+							}
+						}
+					}
+				}
+			}
+		}
+		goal := "true"
+		if len(bad) > 0 || n == 0 {
+			goal = "false"
+		}
+		lem.rawPrelude = fmt.Sprintf("; %d tagged CmdType fields, empty function names: %v\n", n, bad)
+		lem.obls = append(lem.obls, &Obligation{Name: "lemma#L5:CmdType-fct-nonempty", Kind: "lemma", Fn: "tables", Props: []string{prop},
+			Note: fmt.Sprintf("every fct tag of CmdType is non-empty (%d tagged fields; empty: %v)", n, bad), guard: tTrue, goal: leaf(goal)})
+		vcs = append(vcs, lem)
+	}
+	// de-duplicate obligations that denote the same site reached through the same path
+	for _, vc := range vcs {
+		seen := map[string]int{}
+		for _, o := range vc.obls {
+			seen[o.Name]++
+			if seen[o.Name] > 1 {
+				o.Name = fmt.Sprintf("%s~%d", o.Name, seen[o.Name])
+			}
+		}
+	}
+	dir := scratchDir()
+	defer os.RemoveAll(dir)
+	timeout := 10
+	if tier == "thorough" {
+		timeout = 60
+	}
+	solveAll(vcs, dir, timeout, seed, false)
+	findings := loadFindings(filepath.Join(verif, "known_findings.txt"))
+	known := map[string]finding{}
+	for _, fd := range findings {
+		if fd.Kind == "finding" && fd.Property == prop {
+			known[fd.Obligation] = fd
+		}
+	}
+	// the bounded replay corpus (every valid message kind, every single-member removal / null / empty / unknown
+	// value, delivered through HandleSpineMesssage to an established and to a not-yet-discovered peer)
+	corpusFailed, corpusOut := runReplay(verif, "spine", "TestReplay_C05")
+	siteRe := regexp.MustCompile(`PANIC-SITE (\S+) \(([^:)]+):(\d+)\)`)
+	type site struct{ fn, file, line, text string }
+	var sites []site
+	for _, ln := range strings.Split(corpusOut, "\n") {
+		if m := siteRe.FindStringSubmatch(ln); m != nil {
+			sites = append(sites, site{m[1], m[2], m[3], strings.TrimSpace(ln)})
+		}
+	}
+	if corpusFailed && len(sites) == 0 {
+		// the corpus could not run at all: that is a broken check, not a pass
+		fmt.Printf("VIOLATION property=%s replay=%s no-failing-input-found\n", prop, writeReplay(verif, prop, "engine:corpus", corpusOut))
+		return 1
+	}
+	nObl, nOK, violations := 0, 0, 0
+	var knownHit, undecided []string
+	var samples []any
+	byBackend := map[string]int{}
+	var fns []map[string]any
+	assumptions := map[string]bool{}
+	usedSites := map[string]bool{}
+	solverS := 0.0
+	report := func(name, body string, confirmed bool) {
+		violations++
+		undecided = append(undecided, name)
+		rp := writeReplay(verif, prop, name, body)
+		suffix := ""
+		if !confirmed {
+			suffix = " no-failing-input-found"
+		}
+		fmt.Printf("VIOLATION property=%s replay=%s obligation=%s%s\n", prop, rp, name, suffix)
+	}
+	for _, vc := range vcs {
+		for a := range vc.assumptions {
+			assumptions[a] = true
+		}
+		if vc.fnName != "tables" {
+			fc := eng.db.funcs[vc.fnName]
+			inv := []string{}
+			if fc != nil {
+				for _, c := range fc.Assumes {
+					inv = append(inv, c.Src)
+				}
+			}
+			fns = append(fns, map[string]any{"root": shortType(vc.fnName), "obligations": len(vc.obls), "object_invariants_assumed": inv, "abstracted_calls": vc.unsupported})
+		}
+		for _, u := range vc.unsupported {
+			if strings.HasPrefix(u, "engine panic") || strings.HasPrefix(u, "unbound-contract") || strings.HasPrefix(u, "contract expression error") {
+				// the root was not analysed: nothing about it is decided
+				nObl++
+				report("in-subset:"+shortType(vc.fnName), fmt.Sprintf("property: %s\nobligation: in-subset:%s\nthe root could not be analysed: %s\n", prop, shortType(vc.fnName), u), false)
+			}
+		}
+		for _, o := range vc.obls {
+			if o.Cover {
+				if o.Result == "unsat" {
+					nObl++
+					report("vacuous:"+shortType(vc.fnName), fmt.Sprintf("property: %s\nobligation: vacuous:%s\nthe object invariants assumed for this root are contradictory\n", prop, shortType(vc.fnName)), false)
+				}
+				continue
+			}
+			nObl++
+			solverS += o.Seconds
+			if o.Result == "unsat" {
+				nOK++
+				byBackend[o.Solver]++
+				if len(samples) < 3 {
+					samples = append(samples, map[string]any{"obligation": o.Name, "result": o.Result, "backend": o.Solver, "what": o.Note, "source": o.Pos.String()})
+				}
+				continue
+			}
+			if fd, ok := known[o.Name]; ok {
+				fmt.Printf("KNOWN-FINDING: property=%s obligation=%s %s\n", prop, o.Name, fd.Witness)
+				knownHit = append(knownHit, o.Name)
+				nObl--
+				continue
+			}
+			// does the corpus crash at this very source line?
+			confirmed := ""
+			for _, s := range sites {
+				if strings.HasSuffix(o.Pos.Filename, "/"+s.file) && fmt.Sprint(o.Pos.Line) == s.line {
+					confirmed = s.text
+					usedSites[s.text] = true
+				}
+			}
+			body := fmt.Sprintf("property: %s\nobligation: %s\nwhat: %s\nsource: %s\nsolver result: %s (%s)\n\n", prop, o.Name, o.Note, o.Pos, o.Result, o.Solver)
+			if confirmed != "" {
+				body += "--- replay spine TestReplay_C05: the malformed-payload corpus panics at this source line on the real code:\n" + confirmed + "\n\n"
+			} else {
+				body += "--- replay spine TestReplay_C05: no payload of the corpus panics at this source line (the obligation is undischarged, no failing input is known)\n\n"
+			}
+			body += "--- solver output\n" + truncate(o.Model, 6000) + "\n"
+			report(o.Name, body, confirmed != "")
+		}
+	}
+	// a crash of the corpus at a line no failing obligation points at is still a crash of the real code
+	for _, s := range sites {
+		if usedSites[s.text] {
+			continue
+		}
+		name := "corpus:" + s.fn
+		if fd, ok := known[name]; ok {
+			fmt.Printf("KNOWN-FINDING: property=%s obligation=%s %s\n", prop, name, fd.Witness)
+			knownHit = append(knownHit, name)
+			continue
+		}
+		nObl++
+		report(name, fmt.Sprintf("property: %s\nobligation: %s (bounded replay corpus, not a proof obligation)\nthe real code panics:\n%s\n", prop, name, s.text), true)
+	}
+	var as []string
+	for a := range assumptions {
+		as = append(as, a)
+	}
+	as = append(as, "object invariants of the roots ('assumes' clauses, listed per root under coverage.roots) hold on entry; they are constructor-established non-nil fields and registry/entity-list element invariants; the registry invariants are proved preserved (post#inv-kept), the others are not checked",
+		"interface getters return non-nil objects where their interface contract says so (api/contracts_verif.go)",
+		"reflection leaves (CmdType.Data, FilterType.Data, DeepCopy, the helpers of UpdateList) do not panic: outside the verifier's reach, exercised only by the bounded replay corpus",
+		"loops are cut (over-approximation) with the stated invariants only; termination, blocking and the 'still answers discovery afterwards' part of C05 are not decided by this check",
+		"calls listed under abstracted_calls are treated as arbitrary (everything reachable is havocked, results unconstrained); panics inside them are not covered",
+		"encoding/json.Unmarshal either fails or yields a value of the declared Go types (library contract)")
+	sort.Strings(as)
+	ev := evidence{PropertyID: prop, Tier: tier, Seed: seed, Level: "proof", Assumptions: as, WallS: round3(time.Since(t0).Seconds()), Violations: violations}
+	ev.Coverage = map[string]any{"obligations": nObl, "discharged": nOK, "checker_cmd": "bin/govc check C05 -tier " + tier,
+		"trusted_base": []string{"go/ssa", "govc VC generator (safety mode)", "z3", "cvc5"}, "roots": fns, "by_backend": byBackend, "solver_s": round3(solverS),
+		"known_findings_hit": knownHit, "samples": samples, "undecided": undecided, "slice_fallbacks": sliceFallbacks,
+		"bounded_corpus": map[string]any{"label": "bounded (not counted as proved)", "test": "replay/spine/zz_replay_c05_test.go", "panic_sites": len(sites), "summary": firstLineWith(corpusOut, "delivered")}}
+	b, _ := json.MarshalIndent(ev, "", " ")
+	os.WriteFile(evPath, b, 0o644)
+	fmt.Printf("%s: %d obligations, %d discharged, %d violations, %d known findings, %.1fs\n", prop, nObl, nOK, violations, len(knownHit), time.Since(t0).Seconds())
+	if violations > 0 {
+		return 1
+	}
+	return 0
+}
+
+func firstLineWith(txt, sub string) string {
+	for _, ln := range strings.Split(txt, "\n") {
+		if strings.Contains(ln, sub) {
+			return strings.TrimSpace(ln)
+		}
+	}
+	return ""
+}
+
+func init() { specialChecks["C05"] = checkC05 }
